@@ -64,6 +64,7 @@ def _payload_type(ty, vname):
 
 def install_common(eng):
     S = eng.add_summary
+    install_std_extras_later = True
 
     def s_deref(eng, st, callee, args, dty):
         r = args[0]
@@ -183,5 +184,148 @@ def install_common(eng):
     S(r"^Thread::id$", lambda e, st, c, a, d: Outcome(OpaqueV("ThreadId", None)))
     S(r"^(std::)?panicking::begin_panic|^core::panicking::|^std::rt::begin_panic|^std::rt::panic_fmt|^panic_fmt",
       lambda e, st, c, a, d: Outcome(diverge="panic!() reached: " + c))
+    install_std_extras(eng)
 
 
+
+
+# ----------------------------------------------------------------------------- std extras
+# Plausible edits of the code reach for these std helpers; deciding them (instead of aborting on an
+# unknown callee) keeps the checks conclusive on such edits.
+
+def find_closure_fn(eng, callee, clo=None):
+    m = re.search(r"(\{closure@[^}]*\})", callee)
+    text = m.group(1) if m else (clo.ty if isinstance(clo, AggV) else None)
+    if text is None:
+        raise EngineAbort("no closure type in %r" % callee)
+    for name, fn in eng.funcs.items():
+        if "{closure#" in name and fn.args and text in fn.args[0][1]:
+            return fn
+    raise EngineAbort("closure body for %s not found" % text)
+
+
+def _clo_arg(fn, clo):
+    """closures taken by reference in their body signature get a reference"""
+    return RefV(Cell(clo)) if fn.args[0][1].startswith("&") else clo
+
+
+def call_closure(eng, st, callee, clo, args, wrap):
+    """run closure `clo(args...)` synchronously and map its result with `wrap(state, value)`"""
+    fn = find_closure_fn(eng, callee, clo)
+    outs = []
+    for s2, r in eng.call_sync(st, fn, [_clo_arg(fn, clo)] + list(args)):
+        if s2.status != "running":
+            outs.append((s2, None, []))
+        else:
+            outs.append((s2, wrap(s2, r), []))
+    return ("states", outs)
+
+
+def items_of(eng, st, v):
+    v = deref_ref(eng, st, v)
+    if isinstance(v, OpaqueV) and "items" in v.attrs:
+        return v.attrs["items"]
+    if isinstance(v, AggV) and v.ty in ("array",):
+        return v.fields
+    raise EngineAbort("not a list-like value: %r" % (v,))
+
+
+def install_std_extras(eng):
+    S = lambda rx, h: eng.add_summary(rx, h, fallback=True)
+    some = lambda v: AggV("Option", 1, [v], "Some")
+    none = lambda: AggV("Option", 0, [], "None")
+
+    def per_variant(fn_):
+        """summary body applied to each feasible variant of the enum argument"""
+        def h(eng, st, callee, args, dty):
+            m = re.match(r"^((?:std::|core::)?(?:option::|result::)?(?:Option|Result))::<(.*)>::\w+", callee, re.S)
+            ety = ("%s<%s>" % (m.group(1).split("::")[-1], m.group(2))) if m else None
+            recv = args[0] if not isinstance(args[0], RefV) else deref_ref(eng, st, args[0])
+            outs = []
+            for cond, v in variants(eng, st, recv, ety):
+                r = fn_(eng, st, callee, v, args)
+                if isinstance(r, tuple):
+                    if cond is not None:
+                        raise EngineAbort("closure-taking combinator on a symbolic enum")
+                    return r
+                r.conds = ([cond] if cond is not None else []) + r.conds
+                outs.append(r)
+            return outs
+        return h
+    S(r"^Option::<.*>::is_some$", per_variant(lambda e, st, c, v, a: Outcome(BoolV(v.vname == "Some"))))
+    S(r"^Option::<.*>::is_none$", per_variant(lambda e, st, c, v, a: Outcome(BoolV(v.vname == "None"))))
+    S(r"^Result::<.*>::is_ok$", per_variant(lambda e, st, c, v, a: Outcome(BoolV(v.vname == "Ok"))))
+    S(r"^Result::<.*>::is_err$", per_variant(lambda e, st, c, v, a: Outcome(BoolV(v.vname == "Err"))))
+    S(r"^Result::<.*>::ok$", per_variant(lambda e, st, c, v, a: Outcome(some(v.fields[0]) if v.vname == "Ok" else none())))
+    S(r"^Result::<.*>::err$", per_variant(lambda e, st, c, v, a: Outcome(some(v.fields[0]) if v.vname == "Err" else none())))
+    S(r"^Option::<.*>::unwrap_or$", per_variant(lambda e, st, c, v, a: Outcome(v.fields[0] if v.vname == "Some" else a[1])))
+    S(r"^Result::<.*>::unwrap_or$", per_variant(lambda e, st, c, v, a: Outcome(v.fields[0] if v.vname == "Ok" else a[1])))
+    S(r"^Option::<.*>::(unwrap|expect)$", per_variant(lambda e, st, c, v, a: Outcome(v.fields[0]) if v.vname == "Some" else Outcome(diverge="unwrap on None")))
+    S(r"^Result::<.*>::(unwrap|expect)$", per_variant(lambda e, st, c, v, a: Outcome(v.fields[0]) if v.vname == "Ok" else Outcome(diverge="unwrap on Err")))
+    S(r"^Option::<.*>::(copied|cloned)$", per_variant(lambda e, st, c, v, a: Outcome(some(deref_ref(e, st, v.fields[0])) if v.vname == "Some" else none())))
+    S(r"^Option::<.*>::ok_or::<", per_variant(lambda e, st, c, v, a: Outcome(AggV("Result", 0, [v.fields[0]], "Ok") if v.vname == "Some" else AggV("Result", 1, [a[1]], "Err"))))
+    S(r"^Option::<.*>::is_some_and::<", per_variant(lambda e, st, c, v, a: Outcome(BoolV(False)) if v.vname == "None" else call_closure(e, st, c, a[1], [v.fields[0]], lambda s2, r: r)))
+    S(r"^Option::<.*>::is_none_or::<", per_variant(lambda e, st, c, v, a: Outcome(BoolV(True)) if v.vname == "None" else call_closure(e, st, c, a[1], [v.fields[0]], lambda s2, r: r)))
+    S(r"^Option::<.*>::map::<", per_variant(lambda e, st, c, v, a: Outcome(none()) if v.vname == "None" else call_closure(e, st, c, a[1], [v.fields[0]], lambda s2, r: some(r))))
+    S(r"^Option::<.*>::and_then::<", per_variant(lambda e, st, c, v, a: Outcome(none()) if v.vname == "None" else call_closure(e, st, c, a[1], [v.fields[0]], lambda s2, r: r)))
+    S(r"^Option::<.*>::unwrap_or_else::<", per_variant(lambda e, st, c, v, a: Outcome(v.fields[0]) if v.vname == "Some" else call_closure(e, st, c, a[1], [], lambda s2, r: r)))
+    S(r"^Option::<.*>::ok_or_else::<", per_variant(lambda e, st, c, v, a: Outcome(AggV("Result", 0, [v.fields[0]], "Ok")) if v.vname == "Some" else call_closure(e, st, c, a[1], [], lambda s2, r: AggV("Result", 1, [r], "Err"))))
+    S(r"^Result::<.*>::map::<", per_variant(lambda e, st, c, v, a: Outcome(v) if v.vname == "Err" else call_closure(e, st, c, a[1], [v.fields[0]], lambda s2, r: AggV("Result", 0, [r], "Ok"))))
+    S(r"^Result::<.*>::map_err::<", per_variant(lambda e, st, c, v, a: Outcome(v) if v.vname == "Ok" else call_closure(e, st, c, a[1], [v.fields[0]], lambda s2, r: AggV("Result", 1, [r], "Err"))))
+    S(r"^Result::<.*>::and_then::<", per_variant(lambda e, st, c, v, a: Outcome(v) if v.vname == "Err" else call_closure(e, st, c, a[1], [v.fields[0]], lambda s2, r: r)))
+    S(r"^Result::<.*>::or_else::<", per_variant(lambda e, st, c, v, a: Outcome(v) if v.vname == "Ok" else call_closure(e, st, c, a[1], [v.fields[0]], lambda s2, r: r)))
+    S(r"^Result::<.*>::unwrap_or_else::<", per_variant(lambda e, st, c, v, a: Outcome(v.fields[0]) if v.vname == "Ok" else call_closure(e, st, c, a[1], [v.fields[0]], lambda s2, r: r)))
+
+    # list-like values (Vec / slice with a concrete length per path)
+    S(r"^<Vec<.*> as Deref(Mut)?>::deref(_mut)?$|^Vec::<.*>::as_(mut_)?slice$", lambda e, st, c, a, d: Outcome(a[0]))
+    S(r"^(Vec::<.*>|core::slice::<impl \[.*\]>)::len$", lambda e, st, c, a, d: Outcome(IntV(len(items_of(e, st, a[0])), "usize")))
+    S(r"^(Vec::<.*>|core::slice::<impl \[.*\]>)::is_empty$", lambda e, st, c, a, d: Outcome(BoolV(len(items_of(e, st, a[0])) == 0)))
+
+    def s_last(first):
+        def h(eng, st, callee, args, dty):
+            it = items_of(eng, st, args[0])
+            if not it:
+                return Outcome(none())
+            return Outcome(some(RefV(Cell(it[0 if first else -1]))))
+        return h
+    S(r"^(Vec::<.*>|core::slice::<impl \[.*\]>)::last(_mut)?$", s_last(False))
+    S(r"^(Vec::<.*>|core::slice::<impl \[.*\]>)::first(_mut)?$", s_last(True))
+
+    def s_pop(eng, st, callee, args, dty):
+        it = items_of(eng, st, args[0])
+        return Outcome(some(it.pop()) if it else none())
+    S(r"^Vec::<.*>::pop$", s_pop)
+
+    # integer helpers
+    def int2(f):
+        return lambda e, st, c, a, d: f(e, st, a[0], a[1])
+    from sym import int_range
+
+    def checked(op):
+        def h(eng, st, callee, args, dty):
+            a, b = args
+            r = {"add": a.t + b.t, "sub": a.t - b.t, "mul": a.t * b.t}[op]
+            lo, hi = int_range(a.ty)
+            inr = z3.And(r >= lo, r <= hi)
+            return [Outcome(some(IntV(r, a.ty)), [inr]), Outcome(none(), [z3.Not(inr)])]
+        return h
+    for op in ("add", "sub", "mul"):
+        S(r"^(core::num::<impl \w+>|\w+)::checked_%s$" % op, checked(op))
+
+    def saturating(op):
+        def h(eng, st, callee, args, dty):
+            a, b = args
+            r = a.t + b.t if op == "add" else a.t - b.t
+            lo, hi = int_range(a.ty)
+            return Outcome(IntV(z3.If(r > hi, hi, z3.If(r < lo, lo, r)), a.ty))
+        return h
+    S(r"^(core::num::<impl \w+>|\w+)::saturating_add$", saturating("add"))
+    S(r"^(core::num::<impl \w+>|\w+)::saturating_sub$", saturating("sub"))
+    S(r"^(core::num::<impl \w+>|\w+)::wrapping_add$", lambda e, st, c, a, d: Outcome(IntV(e.wrap(a[0].t + a[1].t, a[0].ty), a[0].ty)))
+    S(r"^(core::num::<impl \w+>|\w+)::wrapping_sub$", lambda e, st, c, a, d: Outcome(IntV(e.wrap(a[0].t - a[1].t, a[0].ty), a[0].ty)))
+    S(r"^<\w+ as Ord>::min$|^(std|core)::cmp::Ord::min$", lambda e, st, c, a, d: Outcome(IntV(z3.If(a[1].t < a[0].t, a[1].t, a[0].t), a[0].ty)))
+    S(r"^<\w+ as Ord>::max$|^(std|core)::cmp::Ord::max$", lambda e, st, c, a, d: Outcome(IntV(z3.If(a[1].t >= a[0].t, a[1].t, a[0].t), a[0].ty)))
+    S(r"^(core::num::<impl \w+>|\w+)::div_ceil$", lambda e, st, c, a, d: Outcome(IntV(z3.If(a[0].t % a[1].t > 0, a[0].t / a[1].t + 1, a[0].t / a[1].t), a[0].ty)))
+    S(r"^(core::num::<impl \w+>|\w+)::abs_diff$", lambda e, st, c, a, d: Outcome(IntV(z3.If(a[0].t >= a[1].t, a[0].t - a[1].t, a[1].t - a[0].t), a[0].ty)))
+    S(r"^<(u8|u16|u32|u64|usize|i32|i64) as (From|Into)<.*>>::(from|into)$|^<(u8|u16|u32|u64|usize) as TryFrom<.*>>::try_from$",
+      lambda e, st, c, a, d: Outcome(a[0] if "Try" not in c else AggV("Result", 0, [a[0]], "Ok")))
